@@ -86,8 +86,11 @@ def extract_family(fam, cfg):
                     ms = list(re.finditer(it["header"], src, re.M))
                     if len(ms) != 1:
                         raise extract.AnchorLost(f"header {it['header']!r} matches {len(ms)} times")
-                    b = src.index("{", ms[0].end() - 1)
-                    e = extract.match_brace(src, b)
+                    if it.get("nobrace"):
+                        e = ms[0].end()
+                    else:
+                        b = src.index("{", ms[0].end() - 1)
+                        e = extract.match_brace(src, b)
                     text = src[ms[0].start():e]
                     rep["source"] = f"{it['file']}:{extract.line_of(src, ms[0].start())}-{extract.line_of(src, e)}"
                 elif kind == "file_minus":
